@@ -27,8 +27,11 @@ REPO = os.environ.get("VERIF_REPO", "/repo")
 COQ = os.path.join(ROOT, "coq")
 CACHE = os.path.join(ROOT, ".cache")
 HARNESS = os.path.join(ROOT, "harness")
-EVIDENCE = os.path.join(ROOT, "evidence")
-REPLAYS = os.path.join(ROOT, "replays")
+# VERIF_OUT redirects evidence and replays (used by tools/seedtest.py, seedretest.py and
+# bentest.py so that runs against changed trees never overwrite the evidence of /repo itself)
+OUT = os.environ.get("VERIF_OUT", ROOT)
+EVIDENCE = os.path.join(OUT, "evidence")
+REPLAYS = os.path.join(OUT, "replays")
 CORPUS = os.path.join(ROOT, "corpus")
 KNOWN = os.path.join(ROOT, "KNOWN_FINDINGS.json")
 NCPU = os.cpu_count() or 4
